@@ -13,7 +13,6 @@ def gen(rng, tier):
         G, fam = common.random_connected_graph(rng, 1, 6 if tier == "quick" else 8, large_ok=True)
         D = common.random_divisor(rng, G)
         if rng.random() < 0.12: G, D = common.thin_cut_game(rng); fam = "thincut"
-        if rng.random() < 0.15: G = common.midsize_multigraph(rng); D = common.random_divisor(rng, G); fam = "midsize"
         if rng.random() < 0.12 and G["edges"]:
             G, D = common.scale_game(rng, G, D); fam = fam + "*2^k"
         c = {"G": G, "D": D, "fam": fam, "s": rng.randrange(1 << 30)}
@@ -27,6 +26,12 @@ def gen(rng, tier):
         if G["n"] >= 2 and rng.random() < 0.25:       # history on ONE divisor object: asked, moved to another class by a chip transfer, asked again
             a, b = rng.sample(range(G["n"]), 2); c["move"] = [a, b, rng.randint(1, 3)]
         cases.append(c)
+    # further families are APPENDED (own generator state), so that extending them never shifts the random stream of the cases above
+    r2 = random.Random(rng.randrange(1 << 30))
+    for _ in range(70 if tier == "quick" else 700):       # mid-size multigraphs: rules that switch once 'most of the graph' has burnt
+        G = common.midsize_multigraph(r2); cases.append({"G": G, "D": common.random_divisor(r2, G), "fam": "midsize", "s": r2.randrange(1 << 30)})
+    for _ in range(50 if tier == "quick" else 500):       # a small effective divisor pushed across a thin cut by firing one side: winnable, in debt, with fewer chips in circulation than the smallest valence
+        G, D = common.cut_transfer_game(r2); cases.append({"G": G, "D": D, "fam": "cuttransfer", "s": r2.randrange(1 << 30)})
     if tier == "thorough":
         import itertools
         for n in (2, 3):
